@@ -133,8 +133,9 @@ Choices ==
                              /\ b.tr = (CHOOSE t \in TrailerSet : TRUE)))
       /\ (b.ver = "1.0" => b.te = "none") }
 
-\* the sender must close to end a message that has neither chunked framing nor a (sufficient) length
-MustClose(b) == ~SenderBodyless(b) /\ b.te = "none" /\ b.cl \in {"none", "larger", "nonnum", "neg"}
+\* a body shorter than its Content-Length is only "short" once the sender closes.  (A close-delimited message
+\* whose sender does not close ends with the sender's idle timeout: action Stall.)
+MustClose(b) == ~SenderBodyless(b) /\ b.te = "none" /\ b.cl = "larger"
 TruncChoices(b) == {NoTrunc} \cup (IF TruncMode = "all" THEN 0..(Len(Full(Mk(b, NoTrunc, FALSE))) - 1) ELSE {})
 CloseChoices(b, t) == IF t # NoTrunc \/ MustClose(b) THEN {TRUE} ELSE SCloseSet
 
@@ -470,14 +471,14 @@ DevSurplus0(m) == RefFraming(m) = "length" /\ m.clv = 0 /\ m.raw # <<>>
 Dev(i) == \E j \in 1..i : DevTE(msgs[j]) \/ DevNoBody(msgs[j]) \/ Dev1xx(msgs[j]) \/ DevBadCL(msgs[j])
                            \/ DevSurplus0(msgs[j])
 
-D_Payload      == \A i \in XS : Dev(i) \/ (Ok(i) => delivered[i] = ref[i].expected)
-D_TruncIsError == \A i \in XS : Dev(i) \/ (Ok(i) => ref[i].complete)
-D_CompleteIsOk == \A i \in XS : Dev(i) \/ ((Done(i) /\ ref[i].completeS) => Ok(i))
-D_NoOverRead   == \A i \in XS : Dev(i) \/ (stalled[i] => ref[i].framing = "close")
-D_Persist      == \A i \in XS : Dev(i) \/ ((Ok(i) /\ ~connClosed[i]) => leftover[i] = 0)
-D_RespBytes    == \A i \in XS : Dev(i) \/ (Ok(i) => RespOK(i, recorded[i]))
+D_Payload      == \A i \in XS : Dev(i) \/ ((Clean(i) /\ Ok(i)) => delivered[i] = ref[i].expected)
+D_TruncIsError == \A i \in XS : Dev(i) \/ ((Clean(i) /\ Ok(i)) => ref[i].complete)
+D_CompleteIsOk == \A i \in XS : Dev(i) \/ ((Clean(i) /\ Done(i) /\ ref[i].completeS) => Ok(i))
+D_NoOverRead   == \A i \in XS : Dev(i) \/ ((Clean(i) /\ stalled[i]) => ref[i].framing = "close")
+D_Persist      == \A i \in XS : Dev(i) \/ ((Clean(i) /\ Ok(i) /\ ~connClosed[i]) => leftover[i] = 0)
+D_RespBytes    == \A i \in XS : Dev(i) \/ ((Clean(i) /\ Ok(i)) => RespOK(i, recorded[i]))
 D_RecBlocks    == \A i \in XS : Dev(i) \/ ((Ok(i) /\ reqRecs[i] = 1 /\ respRecs[i] = 1)
-                                            => (RespOK(i, respBlock[i]) /\ reqBlock[i] = reqSent[i]))
+                                            => ((Clean(i) => RespOK(i, respBlock[i])) /\ reqBlock[i] = reqSent[i]))
 
 TypeOK ==
   /\ x \in XS
